@@ -151,3 +151,150 @@ func runC27Proactive(c *core.Check) {
 		}
 	}
 }
+
+// ---- C25-R10: the table comparators are lexicographic steps in one direction ------------
+
+func init() {
+	Extend("C25", runC25Proactive,
+		Mutant{Name: "less-tag-step-compares-descending", File: "internal/api/handler.go", Rule: "C25-R10",
+			Old: "		rv := r.Tags[i].Value\n		if lv != rv {\n			return lv < rv", New: "		rv := r.Tags[i].Value\n		if lv != rv {\n			return lv > rv"},
+		Mutant{Name: "lessThan-from-end-tag-step-ascending", File: "internal/api/handler.go", Rule: "C25-R10",
+			Old: "			if lv != rv {\n				return lv > rv", New: "			if lv != rv {\n				return lv < rv"},
+		Mutant{Name: "lessThan-time-step-returns-other-comparison", File: "internal/api/handler.go", Rule: "C25-R10",
+			Old: "		if l.Time != r.time {\n			return l.Time < r.time", New: "		if l.Time != r.time {\n			return l.SKey < skey"},
+		Mutant{Name: "lessThan-or-equal-bound-made-strict", File: "internal/api/handler.go", Rule: "C25-R10",
+			Old: "			return l.SKey <= skey", New: "			return l.SKey < skey"},
+		Mutant{Name: "less-last-step-swapped", File: "internal/api/handler.go", Rule: "C25-R10",
+			Old: "	return l.SKey < r.SKey", New: "	return r.SKey < l.SKey"})
+}
+
+// c25cmp is a returned comparison brought to the form `Lo (<|<=) Hi`.
+type c25cmp struct {
+	ret    *ssa.Return
+	lo, hi ssa.Value
+	strict bool
+}
+
+func c25ReturnedComparisons(fn *ssa.Function) []c25cmp {
+	var out []c25cmp
+	for _, ret := range core.Returns(fn) {
+		if len(ret.Results) != 1 {
+			continue
+		}
+		b, ok := ret.Results[0].(*ssa.BinOp)
+		if !ok {
+			continue
+		}
+		switch b.Op.String() {
+		case "<":
+			out = append(out, c25cmp{ret, b.X, b.Y, true})
+		case "<=":
+			out = append(out, c25cmp{ret, b.X, b.Y, false})
+		case ">":
+			out = append(out, c25cmp{ret, b.Y, b.X, true})
+		case ">=":
+			out = append(out, c25cmp{ret, b.Y, b.X, false})
+		}
+	}
+	return out
+}
+
+// c25IndexedBy reports whether v is read from an element selected by index idx
+// (s[idx].f, a copy of it, len() of it, a field of it).
+func c25IndexedBy(v ssa.Value, idx ssa.Value, seen map[ssa.Value]bool) bool {
+	if v == nil || seen[v] {
+		return false
+	}
+	seen[v] = true
+	switch v := v.(type) {
+	case *ssa.IndexAddr:
+		return v.Index == idx || c25IndexedBy(v.X, idx, seen)
+	case *ssa.Index:
+		return v.Index == idx || c25IndexedBy(v.X, idx, seen)
+	case *ssa.UnOp:
+		return c25IndexedBy(v.X, idx, seen)
+	case *ssa.FieldAddr:
+		return c25IndexedBy(v.X, idx, seen)
+	case *ssa.Field:
+		return c25IndexedBy(v.X, idx, seen)
+	case *ssa.Convert:
+		return c25IndexedBy(v.X, idx, seen)
+	case *ssa.Call:
+		if core.CalleeName(&v.Call) == "builtin len" {
+			return c25IndexedBy(v.Call.Args[0], idx, seen)
+		}
+	case *ssa.Alloc:
+		for _, ref := range *v.Referrers() {
+			if st, ok := ref.(*ssa.Store); ok && st.Addr == v && c25IndexedBy(st.Val, idx, seen) {
+				return true
+			}
+		}
+	}
+	return false
+}
+
+// c25StepPaired: when the innermost fact of the return's block is `a != b`, the returned
+// comparison must be between a and b.
+func c25StepPaired(c *core.Check, rule, fname string, k c25cmp, n int) {
+	facts := core.Facts(k.ret.Block())
+	if len(facts) == 0 || len(facts[0].Alts) != 1 {
+		return
+	}
+	l := facts[0].Alts[0]
+	if l.Op.String() != "==" || l.Pol {
+		return
+	}
+	a, b := core.Expr(l.X), core.Expr(l.Y)
+	x, y := core.Expr(k.lo), core.Expr(k.hi)
+	ok := (a == x && b == y) || (a == y && b == x)
+	c.Require(ok, rule, fmt.Sprintf("%s/step#%d/paired", fname, n), k.ret.Pos(), "the step returns the comparison of the values it found different",
+		"under "+l.String()+" the comparator returns the comparison of "+x+" with "+y+": the step decides the order by other values than the ones it found different, the order is no longer lexicographic (rows are mis-sorted and the row window cuts at the wrong place)")
+}
+
+func runC25Proactive(c *core.Check) {
+	c.Decides += " R10 the two comparators of table rows (queryTableRows.Less, which sorts the result, and lessThan, which places a row relative to the window markers) are lexicographic: a step taken under `a != b` returns the comparison of a with b, every step of Less is ascending in (row i, row j), every step of lessThan is ascending in (marker, row) when reading from the start and descending when reading from the end, and its last step is non-strict exactly under orEq."
+	const rule = "C25-R10"
+	c.Rule(rule, "K8 comparator shape", 14, "every returned comparison of queryTableRows.Less and lessThan: paired with its inequality guard, in the direction of its branch")
+	if fn := need(c, rule, "internal/api.(queryTableRows).Less"); fn != nil && len(fn.Params) == 3 {
+		ks := c25ReturnedComparisons(fn)
+		for n, k := range ks {
+			c25StepPaired(c, rule, "internal/api.(queryTableRows).Less", k, n+1)
+			ok := c25IndexedBy(k.lo, fn.Params[1], map[ssa.Value]bool{}) && c25IndexedBy(k.hi, fn.Params[2], map[ssa.Value]bool{}) && k.strict
+			c.Require(ok, rule, fmt.Sprintf("internal/api.(queryTableRows).Less/step#%d/direction", n+1), k.ret.Pos(), "step is strictly ascending in (row i, row j)",
+				"Less(i, j) returns "+core.Expr(k.ret.Results[0])+", which is not `value of row i < value of row j`: this step orders rows the other way round than the other steps (sort.Reverse is applied on top for the descending direction), so the result is not sorted")
+		}
+		if len(ks) < 4 {
+			c.Undecided(rule, "internal/api.(queryTableRows).Less/steps", fn.Pos(), fmt.Sprintf("expected at least 4 returned comparisons, found %d", len(ks)))
+		}
+	}
+	if fn := need(c, rule, "internal/api.lessThan"); fn != nil && len(fn.Params) == 5 {
+		ks := c25ReturnedComparisons(fn)
+		markerSide := func(v ssa.Value) bool { return strings.HasPrefix(core.Expr(v), "{api.RowMarker}") || strings.HasPrefix(core.Expr(v), "{0:") }
+		for n, k := range ks {
+			c25StepPaired(c, rule, "internal/api.lessThan", k, n+1)
+			fromEnd := core.Holds(k.ret.Block(), core.T("{4:bool}"))
+			fromStart := core.Holds(k.ret.Block(), core.F("{4:bool}"))
+			if fromEnd == fromStart {
+				c.Undecided(rule, fmt.Sprintf("internal/api.lessThan/step#%d", n+1), k.ret.Pos(), "the returned comparison is not inside the fromEnd / !fromEnd branch")
+				continue
+			}
+			var ok bool
+			if fromStart {
+				ok = markerSide(k.lo) && !markerSide(k.hi)
+			} else {
+				ok = markerSide(k.hi) && !markerSide(k.lo)
+			}
+			c.Require(ok, rule, fmt.Sprintf("internal/api.lessThan/step#%d/direction", n+1), k.ret.Pos(), "step follows the reading direction",
+				fmt.Sprintf("with fromEnd=%v lessThan returns %s: this step compares marker and row in the other direction than the reading direction of its branch, rows are placed on the wrong side of the window marker", fromEnd, core.Expr(k.ret.Results[0])))
+			orEq := core.Holds(k.ret.Block(), core.T("{3:bool}"))
+			notOrEq := core.Holds(k.ret.Block(), core.F("{3:bool}"))
+			if orEq || notOrEq {
+				c.Require(k.strict == notOrEq, rule, fmt.Sprintf("internal/api.lessThan/step#%d/strictness", n+1), k.ret.Pos(), "last step is non-strict exactly under orEq",
+					fmt.Sprintf("with orEq=%v lessThan's last step returns %s: the row equal to the window marker falls on the wrong side (the `to` row is lost or the `from` row is repeated on the next page)", orEq, core.Expr(k.ret.Results[0])))
+			}
+		}
+		if len(ks) < 8 {
+			c.Undecided(rule, "internal/api.lessThan/steps", fn.Pos(), fmt.Sprintf("expected at least 8 returned comparisons, found %d", len(ks)))
+		}
+	}
+}
